@@ -127,7 +127,16 @@ fn oracle(c: &PlCase, cx: &mut CaseCtx) -> Result<(), String> {
             (h, auth(&mut s, e)?, format!("user_can_send_message({})", c.probe_type))
         }
         "state" => {
-            let e = s.event(&c.probe_type, Some(""), actor_s, json!({"x": 1}));
+            // the corresponding event: one whose content gives the type-specific rules nothing to object to
+            let (key, content) = match c.probe_type.as_str() {
+                "m.room.power_levels" => (String::new(), c.content.clone()),
+                "m.room.join_rules" => (String::new(), json!({"join_rule": "public"})),
+                "m.room.history_visibility" => (String::new(), json!({"history_visibility": "shared"})),
+                "m.room.third_party_invite" => ("tok".to_owned(), json!({"display_name": "d", "key_validity_url": "https://id.example/valid", "public_key": "abc"})),
+                "m.room.aliases" => (crate::refauth::domain(actor_s).to_owned(), json!({"aliases": []})),
+                _ => (String::new(), json!({"x": 1})),
+            };
+            let e = s.event(&c.probe_type, Some(&key), actor_s, content);
             let t = StateEventType::from(c.probe_type.as_str());
             let h = pl.user_can_send_state(actor, t.clone());
             if pl.user_can_do(actor, PowerLevelAction::SendState(t.clone())) != h || (pl.for_user(actor) >= pl.for_state(t)) != h {
@@ -173,6 +182,12 @@ fn oracle(c: &PlCase, cx: &mut CaseCtx) -> Result<(), String> {
     cx.class_if(c.content.to_string().contains("\" ") || c.content.to_string().contains("\\n\""), "padded_string_levels");
     cx.nontrivial_if(boundary);
     if helper != rules {
+        // known finding: room versions 1-5 authorise m.room.aliases by the state key alone (rule 4),
+        // whatever the sender's level; the helper has no room-version input to say so
+        if c.action == "state" && c.probe_type == "m.room.aliases" && c.version <= 5 && !helper && rules && cx.known_finding("send_state_aliases_before_v6", json!({"version": c.version, "power_levels": c.content})) {
+            cx.class("known_aliases_before_v6");
+            return Ok(());
+        }
         return Err(format!("room version {}: {what} = {helper} but the {} {} it; power levels {} target membership {}", c.version, if c.action == "notify" { "push condition" } else { "authorization rules" }, if rules { "accept" } else { "reject" }, c.content, c.target_membership));
     }
     Ok(())
@@ -251,7 +266,7 @@ fn cells() -> Vec<PlCase> {
                         out.push(PlCase { version: v, content: with(base(None), "invite", th), action: "invite".into(), target_membership: tm.into(), probe_type: String::new(), actor_is_target: false, actor_is_creator: false, target_is_creator: false });
                     }
                     for entry in around {
-                        for (action, ty, field) in [("message", "m.room.message", "events_default"), ("message", "m.reaction", "events_default"), ("state", "m.room.topic", "state_default"), ("state", "org.example.state", "state_default")] {
+                        for (action, ty, field) in [("message", "m.room.message", "events_default"), ("message", "m.reaction", "events_default"), ("state", "m.room.topic", "state_default"), ("state", "org.example.state", "state_default"), ("state", "m.room.power_levels", "state_default"), ("state", "m.room.join_rules", "state_default"), ("state", "m.room.history_visibility", "state_default"), ("state", "m.room.third_party_invite", "state_default"), ("state", "m.room.aliases", "state_default")] {
                             let mut c = with(base(None), field, th);
                             if let Some(e) = entry {
                                 c["events"] = json!({ty: lvl(e, string)});
@@ -387,7 +402,7 @@ fn random_case() -> impl Strategy<Value = PlCase> {
             };
             let probe_type = match action {
                 "message" => ["m.room.message", "m.reaction"][tm as usize % 2],
-                "state" => ["m.room.topic", "org.example.state"][tm as usize % 2],
+                "state" => ["m.room.topic", "org.example.state", "m.room.power_levels", "m.room.join_rules", "m.room.history_visibility", "m.room.third_party_invite", "m.room.aliases"][tm as usize % 7],
                 _ => "",
             };
             PlCase { version, content: c, action: action.into(), target_membership: target_membership.into(), probe_type: probe_type.into(), actor_is_target: false, actor_is_creator: who == 1, target_is_creator: who == 2 }
